@@ -269,15 +269,20 @@ def run_case(case):
 
 
 MC_CHANNELS = ['a', 'b', 'c']
+MC_TICKS = 14
 
 
 def run_mc(case):
-    """call()/wait() on several channels (outside the Coq model; oracle only).  A waiter component on channel 'app' plus one
+    """call()/wait() on several channels (layer model Model/WaitChannels.v + oracle).  A waiter component on channel 'app' plus one
     component per channel a, b, c with a plain handler of e1 (returns 1, 2, 3; with 'craise' the one on the first channel the
     event goes to raises).  wait: the event is fired by the harness on the channels case['fire'] three ticks after the wait
     began; call: the waiter fires it itself on case['chans'].  'tmo' = timeout or None, 'araise' = the waiter raises right after
-    having been resumed.  Observable: the waiter's log, the handler-table difference, the task set size."""
-    log = []
+    having been resumed.  Observable: the waiter's log, the handler-table difference, the task set size; and, tied to
+    Model/WaitChannels.v: how and in which loop iteration after the installation the waiter was resumed, the temporaries installed
+    two iterations after the installation and at the end."""
+    wlog = []
+    when_ = []
+    cur = [0]
     chans, fire = list(case['chans']), list(case.get('fire') or [])
     tmo, craise, araise = case.get('tmo'), bool(case.get('craise')), bool(case.get('araise'))
     goes_to = chans if case['op'] == 'call' else fire
@@ -297,9 +302,11 @@ def run_mc(case):
                     x = yield self.call(e1(), *chans, **kw)
                 else:
                     x = yield self.wait('e1', *chans, **kw)
-                log.append([2, sorted(enc_value(x)), 1 if x.errors else 0])
+                when_.append(cur[0])
+                wlog.append([2, sorted(enc_value(x)), 1 if x.errors else 0])
             except CTimeout:
-                log.append([3])
+                when_.append(cur[0])
+                wlog.append([3])
             if araise:
                 raise Scripted('scripted')
             yield 5
@@ -329,17 +336,63 @@ def run_mc(case):
 
     def snap():
         return {k: len(v) for k, v in getattr(app, '_handlers', {}).items() if v}
+
+    def temporaries(h):
+        return [h.get('e1', 0) - h0.get('e1', 0), h.get('e1_done', 0) - h0.get('e1_done', 0),
+                h.get('generate_events', 0) - h0.get('generate_events', 0)]
     h0 = snap()
     app.fire(Event.create('go'))
-    for _ in range(3):
+    for t in range(3):                 # t = 0: go dispatched; t = 1: the wait is installed; t = 2
+        cur[0] = t
         app.tick(0)
+    hmid = snap()
     if case['op'] == 'wait' and fire:
         app.fire(e1(), *fire)
-    for _ in range(16):
+    for t in range(3, 3 + MC_TICKS):
+        cur[0] = t
         app.tick(0)
     h1 = snap()
     diff = sorted([k, h1.get(k, 0) - h0.get(k, 0)] for k in set(h0) | set(h1) if h1.get(k, 0) != h0.get(k, 0))
-    return {'mc': [log, diff, len(common.get_tasks(app, []))]}
+    kind = wlog[0][0] if wlog else 0
+    when = (when_[0] - 1) if when_ else 0
+    return {'mc': [wlog, diff, len(getattr(app, '_tasks', []))],
+            'tied': [kind, when, temporaries(hmid), temporaries(h1), 0]}
+
+
+def mc_chan(c):
+    return 'CStar' if c == '*' else 'CNamed %d%%nat' % MC_CHANNELS.index(c)
+
+
+def mc_model_term(case):
+    """the same scenario as a step sequence of Model/WaitChannels.v: per loop iteration after the wait was installed
+    [one pass over the tasks,] the dispatches of that flush in queue order, generate_events"""
+    chans, fire = list(case['chans']), list(case.get('fire') or [])
+    dcs = chans if case['op'] == 'call' else fire
+
+    def lst(l):
+        return '[%s]' % '; '.join(mc_chan(c) for c in l)
+    ticks = []
+    for t in range(1, 3 + MC_TICKS):
+        st = [] if t == 1 else ['RunTasks']
+        if case['op'] == 'call':
+            if t == 1:
+                st.append('Dispatch 1%%nat %s' % lst(dcs))
+            if t == 2:
+                st.append('DispatchDone 1%%nat %s' % lst(dcs))
+        elif fire:
+            if t == 3:
+                st.append('Dispatch 1%%nat %s' % lst(dcs))
+            if t == 4:
+                st.append('DispatchDone 1%%nat %s' % lst(dcs))
+        st.append('Tick')
+        ticks.append('[%s]' % '; '.join(st))
+    tmo = case.get('tmo')
+    return 'obs_mc %s %s (%d) [%s] 2%%nat' % (lst(chans), '(Some 1%nat)' if case['op'] == 'call' else 'None',
+                                              -1 if tmo is None else tmo, '; '.join(ticks))
+
+
+def mc_match(hc, dc):
+    return hc == '*' or dc == '*' or hc == dc
 
 
 def mc_expect(case):
@@ -347,18 +400,19 @@ def mc_expect(case):
     chans, fire = list(case['chans']), list(case.get('fire') or [])
     tmo = case.get('tmo')
     goes_to = chans if case['op'] == 'call' else fire
-    hit = case['op'] == 'call' or bool(set(fire) & set(chans))
+    hit = case['op'] == 'call' or any(mc_match(c, d) for c in chans for d in fire)
     if tmo == 0 or (tmo is not None and not hit):
         return [[3]], []
     if not hit:
         return [], None       # still waiting, legitimately: how many handlers that takes is the implementation's business
     vals, errs = [], 0
-    for ch in goes_to:
-        if case.get('craise') and ch == goes_to[0]:
-            vals.append(-1)
-            errs = 1
-        else:
-            vals.append(MC_CHANNELS.index(ch) + 1)
+    for i, ch in enumerate(MC_CHANNELS):          # the components whose handler of e1 the event reaches
+        if any(mc_match(ch, d) for d in goes_to):
+            if case.get('craise') and ch == goes_to[0]:
+                vals.append(-1)
+                errs = 1
+            else:
+                vals.append(i + 1)
     return [[2, sorted(vals), errs]], []
 
 
@@ -373,6 +427,11 @@ def mc_cases():
                     for craise in ((0, 1) if (op == 'call' or fire) else (0,)):
                         for araise in (0, 1):
                             out.append({'k': 'mc', 'op': op, 'chans': chans, 'fire': fire, 'tmo': tmo, 'craise': craise, 'araise': araise})
+    for chans, fire in ((['*'], ['b']), (['a', 'b'], ['*']), (['*', 'a'], ['a']), (['b', '*'], ['c', 'a']), (['a'], ['*', 'a'])):
+        for tmo in (None, 0, 9):
+            out.append({'k': 'mc', 'op': 'wait', 'chans': chans, 'fire': fire, 'tmo': tmo, 'craise': 0, 'araise': 0})
+    for chans in (['*'], ['a', '*']):
+        out.append({'k': 'mc', 'op': 'call', 'chans': chans, 'fire': [], 'tmo': 9, 'craise': 0, 'araise': 0})
     return out
 
 
@@ -767,7 +826,7 @@ def check_trace(case, obs):
 class C06(Prop):
     id = 'C06'
     props_file = 'Props/C06.v'
-    imports = ['Model.KTasks', 'Model.KTasksObs']
+    imports = ['Model.KTasks', 'Model.KTasksObs', 'Model.WaitChannels', 'Model.WaitChannelsObs']
     quick_n = 320
     thorough_n = 6000
     rule = ('acyclic programs over <= 5 event names (call depth <= 4): plain handlers (return/raise) and generator handlers with '
@@ -838,7 +897,7 @@ class C06(Prop):
 
     def model_term(self, case):
         if case.get('k') == 'mc':
-            return None          # several channels: outside the model, oracle only
+            return mc_model_term(case)          # the layer model Model/WaitChannels.v
         return 'hash_run ' + self.model_args(case)
 
     def full_obs(self, case, obs):
@@ -847,6 +906,8 @@ class C06(Prop):
     def obs_for_model(self, case, obs):
         if isinstance(obs, dict) and '__crash__' in obs:
             return [-999]
+        if case.get('k') == 'mc':
+            return obs['tied']
         return obs_hash(self.full_obs(case, obs))
 
     def oracle(self, case, obs):
